@@ -2,7 +2,7 @@
 import numpy as np
 from hypothesis import strategies as st
 
-from pbt import ir, lossgen, refsolve, jets, refdist
+from pbt import ir, lossgen, refsolve, jets, refdist, strategies as S
 from pbt.harness import PropertyViolation, Inconclusive
 from pbt.util import call
 from pbt.props.c07 import reference_gradient
@@ -42,6 +42,13 @@ def strategy(tier, mode=None):
             c = draw(lossgen.loss_case(kinds=["Square"], weights=True, target_param="any-order", max_states=3, n_times=(3, 8)))
         c["part"] = "jtj" if mode in (None, "jtj") else "hessian"
         c["spread"] = None
+        if c["part"] == "jtj" and not isinstance(c["weights"], list) and draw(st.integers(0, 2)) > 0:
+            # the weighted JTJ is this part's subject: mostly non-scalar weights (per state, or per observation and state)
+            n, p = len(c["setup"]["grid_rel"]), len(c["obs"])
+            if draw(st.booleans()) and p >= 2:
+                c["weights"] = [draw(S.fl(0.2, 2.5, 3)) for _ in range(p)]
+            else:
+                c["weights"] = [[draw(S.fl(0.2, 2.5, 3)) for _ in range(p)] for _ in range(n)]
         return c
     return case()
 
@@ -70,6 +77,12 @@ def oracle(case, rec):
     tp = case["target_param"] or m["params"]
     pidx = [m["params"].index(q) for q in tp]
     rec.label("part:" + case["part"], "free:%d" % nf, "obs:%d" % p)
+    if case["part"] == "jtj":
+        wf = case["weights"]
+        rec.label("weights:" + ("none" if wf is None else "scalar" if not isinstance(wf, list) else
+                                "per-state" if not isinstance(wf[0], list) else "matrix"))
+        if isinstance(wf, list) and p >= 2 and nf >= 2:
+            rec.label("jtj:nonscalar-weights+2obs+2free")
     if case["part"] == "jtj":
         W = lossgen.broadcast(case["weights"], n, p, 1.0)
         want = np.zeros((nf, nf))
